@@ -15,6 +15,8 @@
     specification, 4 CompletePath, 5 client query round trip, 6 scalar round
     trip, 7 FromScalar/ToScalar panicked, 8 Equal panicked, 9 Equal not
     symmetric or true on different values.
+    An outcome that depends on the in-memory representation of an equal
+    message ([RDiff]) fails the tag of its case kind (3, 4, 5, 6, 9).
     Known class: 13 last query element ending in '/' dropped (KF-C19-3).
     (Classes 11 / 12 were the nil dereferences of Equal / ToScalar, DEFECT
     C19_1 / C19_2, fixed by b28d6aa / e8be1b1: such a panic is now an ordinary
@@ -22,11 +24,18 @@
 From Gnmi Require Import Base.Prelude Path.PathModel Path.QueryString Value.ValueModel.
 Open Scope list_scope.
 
-(** observed outcome; the class of an error is not observed *)
-Inductive ores (A : Type) := ROk (a : A) | RErr | RPanic.
+(** observed outcome; the class of an error is not observed.  [RDiff]: the
+    harness handed the function the SAME message in several in-memory
+    representations (nil vs allocated-empty slices and maps, which protobuf
+    does not distinguish: proto.Equal, identical wire bytes) or called it twice
+    on the same input, and the outcomes differed.  The model sees only the
+    message, so [RDiff] never equals a model outcome; under K_P it is a failure
+    of "equal inputs index / convert / compare identically". *)
+Inductive ores (A : Type) := ROk (a : A) | RErr | RPanic | RDiff.
 Arguments ROk {A} a.
 Arguments RErr {A}.
 Arguments RPanic {A}.
+Arguments RDiff {A}.
 
 Definition project {A} (o : outcome A) : ores A :=
   match o with Ok a => ROk a | Err _ => RErr | Panic _ => RPanic end.
@@ -56,7 +65,7 @@ Definition ores_eqb {A} (e : A -> A -> bool) (a b : ores A) : bool :=
   | ROk x, ROk y => e x y
   | RErr, RErr => true
   | RPanic, RPanic => true
-  | _, _ => false
+  | _, _ => false            (* RDiff equals nothing, not even itself *)
   end.
 
 Definition strs_eqb := list_eqb String.eqb.
@@ -236,6 +245,7 @@ Definition bind_scalar (jv : string -> bool) (x : gscalar) : ores gscalar :=
 
 Definition is_panic {A} (r : ores A) : bool := match r with RPanic => true | _ => false end.
 Definition is_err {A} (r : ores A) : bool := match r with RErr => true | _ => false end.
+Definition is_diff {A} (r : ores A) : bool := match r with RDiff => true | _ => false end.
 
 Definition check_case (c : case) : list N :=
   match c with
@@ -272,16 +282,17 @@ Definition check_case (c : case) : list N :=
             | ROk _ => supported x && ores_eqb gs_eqb r2 (ROk (widen x))
             | RErr => negb (supported x) && is_err r2
             | RPanic => true    (* reported under tag 7 *)
-            end) 6
+            | RDiff => false
+            end && negb (is_diff r2)) 6
   | CToScalar t jvalid r =>
       flag (ores_eqb gs_eqb r (project (to_scalar (jv_of jvalid) t))) 1 ++
-      (if is_panic r then [7%N] else [])
+      (if is_panic r then [7%N] else if is_diff r then [6%N] else [])
   | CEqual a b rab rba =>
       flag (ores_eqb Bool.eqb rab (project (equal a b)) && ores_eqb Bool.eqb rba (project (equal b a))) 1 ++
       (if is_panic rab || is_panic rba
        then [8%N]
        else
-         flag (ores_eqb Bool.eqb rab rba &&
+         flag (negb (is_diff rab) && negb (is_diff rba) && ores_eqb Bool.eqb rab rba &&
                match rab with ROk true => tv_same a b | _ => true end &&
                match rba with ROk true => tv_same b a | _ => true end) 9)
   end.
